@@ -50,7 +50,7 @@ def callee_ref(route, uid, j):
         return 'NS.sub.' + base
     if route == 'method':
         return 'self.' + base
-    if route in ('param', 'param_nested', 'param_kw', 'param_default', 'param_method', 'method_default'):
+    if route in ('param', 'param_nested', 'param_kwo', 'param_subclass', 'param_kw', 'param_default', 'param_method', 'method_default'):
         return 'fn%d' % j
     if route == 'partial':
         return base
@@ -264,6 +264,20 @@ def render(prog, uid):
         lines.append('def F%s(%s%s):' % (uid, fns, ', ' + outer_txt if outer_txt else ''))
         lines.extend(ind + ln for ln in body_lines(prog, uid))
         lines.append('W%s = functools.partial(F%s, %s)' % (uid, uid, ', '.join('C%s_%d' % (uid, j) for j in range(n))))
+        return '\n'.join(lines) + '\n'
+    if prog.route in ('param_kwo', 'param_subclass'):
+        fns = ', '.join('fn%d' % j for j in range(n))
+        if prog.route == 'param_kwo':
+            # the forwarder is translated by modifiers.kwoargs: a parameter written before *args is keyword-only
+            lines.append("@modifiers.kwoargs('opt_')")
+            sh2 = (tuple(p for p in prog.outer if p[1] in (PO, POK)) + (('opt_', POK, True),)
+                   + tuple(p for p in prog.outer if p[1] not in (PO, POK)))
+            lines.append('def F%s(%s, %s):' % (uid, fns, space.render(sh2, {'opt_': 'None'})))
+        else:
+            lines.append('def F%s(%s%s):' % (uid, fns, ', ' + outer_txt if outer_txt else ''))
+        lines.extend(ind + ln for ln in body_lines(prog, uid))
+        cls = 'PARTIAL_SUBCLASS' if prog.route == 'param_subclass' else 'functools.partial'
+        lines.append('W%s = %s(F%s, %s)' % (uid, cls, uid, ', '.join('C%s_%d' % (uid, j) for j in range(n))))
         return '\n'.join(lines) + '\n'
     if prog.route == 'param_nested':
         # the callee is bound by a partial object around another partial object, which functools leaves nested because the
